@@ -216,9 +216,10 @@ def write_wkt(
         The path where the geometry should be written to.
     """
     with open(path, 'w') as f:
-        # rounding_precision=-1 writes the full coordinate values,
-        # the default rounds to six decimal places.
-        f.write(shapely.to_wkt(_to_multipolygon(dataset), rounding_precision=-1))
+        # The default rounds to six decimal places, and the 'shortest
+        # representation' mode (-1) still alters about one double in three.
+        # Twenty decimal places reads back as exactly the same coordinates.
+        f.write(shapely.to_wkt(_to_multipolygon(dataset), rounding_precision=20))
 
 
 def write_wkb(
